@@ -125,7 +125,7 @@ func genPlan(t *rapid.T) graph.WrapPlan {
 func TestRandom(t *testing.T) {
 	kit.Rec.Rule(rule)
 	rapid.Check(t, func(t *rapid.T) {
-		s := graph.Gen(t, graph.GenOpts{MinNodes: 2, MaxNodes: 6, Variants: "NLLPPE", Aliases: true, Lookups: true})
+		s := graph.Gen(t, graph.GenOpts{MinNodes: 2, MaxNodes: 6, Variants: "NLLPPE", Aliases: true, Lookups: true, Twins: true})
 		plans := map[int]graph.WrapPlan{}
 		for i, n := range s.Nodes {
 			if n.Variant != 'N' && rapid.IntRange(0, 2).Draw(t, "wrapped") > 0 {
@@ -143,7 +143,7 @@ func TestRandom(t *testing.T) {
 func TestRandomPure(t *testing.T) {
 	kit.Rec.Rule(rule)
 	rapid.Check(t, func(t *rapid.T) {
-		s := graph.Gen(t, graph.GenOpts{MinNodes: 2, MaxNodes: 5, Variants: "QQS", Aliases: true, Lookups: true})
+		s := graph.Gen(t, graph.GenOpts{MinNodes: 2, MaxNodes: 5, Variants: "QQS", Aliases: true, Lookups: true, Twins: true})
 		plans := map[int]graph.WrapPlan{}
 		for i := range s.Nodes {
 			if rapid.IntRange(0, 2).Draw(t, "wrapped") > 0 {
@@ -261,17 +261,16 @@ func adj3(edges ...[2]int) int {
 }
 
 var shapes3 = []int{
-	adj3([2]int{0, 1}, [2]int{1, 2}, [2]int{2, 0}),                                              // 3-cycle
-	adj3([2]int{0, 1}, [2]int{1, 2}, [2]int{2, 0}, [2]int{0, 2}),                                // 3-cycle + chord
-	adj3([2]int{0, 1}, [2]int{1, 0}, [2]int{1, 2}, [2]int{2, 1}),                                // two 2-cycles sharing a node
-	adj3([2]int{0, 1}, [2]int{1, 0}, [2]int{2, 0}, [2]int{2, 1}),                                // 2-cycle with an outside holder
-	adj3([2]int{0, 1}, [2]int{1, 2}, [2]int{2, 0}, [2]int{0, 0}),                                // 3-cycle with a self loop
-	adj3([2]int{0, 1}, [2]int{0, 2}, [2]int{1, 0}, [2]int{1, 2}, [2]int{2, 0}, [2]int{2, 1}),    // complete
+	adj3([2]int{0, 1}, [2]int{1, 2}, [2]int{2, 0}),                                           // 3-cycle
+	adj3([2]int{0, 1}, [2]int{1, 2}, [2]int{2, 0}, [2]int{0, 2}),                             // 3-cycle + chord
+	adj3([2]int{0, 1}, [2]int{1, 0}, [2]int{1, 2}, [2]int{2, 1}),                             // two 2-cycles sharing a node
+	adj3([2]int{0, 1}, [2]int{1, 0}, [2]int{2, 0}, [2]int{2, 1}),                             // 2-cycle with an outside holder
+	adj3([2]int{0, 1}, [2]int{1, 2}, [2]int{2, 0}, [2]int{0, 0}),                             // 3-cycle with a self loop
+	adj3([2]int{0, 1}, [2]int{0, 2}, [2]int{1, 0}, [2]int{1, 2}, [2]int{2, 0}, [2]int{2, 1}), // complete
 }
 
 func TestExhaustive3Quick(t *testing.T) { enumerate(t, 3, shapes3[:1]) }
 func TestExhaustive3(t *testing.T)      { enumerate(t, 3, shapes3) }
-
 
 // TestKnownRetryAfterRefusedLazyCreation replays the fixed witness of the known finding
 // C03/retry-after-refused-lazy-creation and reports whether it still fails.
